@@ -1325,10 +1325,54 @@ def b25(ctx, rid):
         raise core.AnchorLost('checked_add_assign of Option<T>: %d' % n)
 
 
+def b28(ctx, rid):
+    """a group node created under the root is linked to it: the node `new_inner_node` builds has `parent = Some(root)`.  The
+    filter of a new child is merged along the `parent` links; a group node without a parent keeps the keys of its blobs out of
+    the root filter, which then answers `absent` for them"""
+    prog = ctx.prog
+    f = prog.body_of('filter::hierarchical::HierarchicalFilters::<Key, Filter, Child>::new_inner_node')
+    if f is None:
+        raise core.AnchorLost('HierarchicalFilters::new_inner_node')
+    n = 0
+    for i in f.reachable():
+        for st in f.blocks[i]['s']:
+            r = st.get('r') or {}
+            if st['k'] == 'a' and r.get('k') == 'agg' and str(r.get('adt', '')).endswith('hierarchical::InnerNode') and 'parent' in r.get('fields', []):
+                n += 1
+                op = r['ops'][r['fields'].index('parent')]
+                # not variant-precise on purpose: what is stored, Some(..) or a default None
+                somes = [d for d in _agg_defs(f, op) if d.get('variant') == 'Some']
+                key = 'group-node-linked-to-root|filter::hierarchical::HierarchicalFilters::new_inner_node'
+                if somes:
+                    ctx.ok(rid, key, f.where(i), 'parent = Some(..)')
+                else:
+                    ctx.bad(rid, key, f.where(i), 'the group node is created without a parent link (default None): filters of blobs added below it never reach the root filter')
+    if n < 1:
+        raise core.AnchorLost('InnerNode constructions in new_inner_node: %d' % n)
+
+
+def _agg_defs(f, operand, depth=5, seen=None):
+    """aggregate rvalues an operand is copied from (through plain copies)"""
+    if seen is None:
+        seen = set()
+    p = core.op_place(operand)
+    if p is None or depth <= 0 or p[0] in seen:
+        return []
+    seen.add(p[0])
+    out = []
+    for (bb, si, kind, r) in f.defs().get(p[0], []):
+        if kind == 'assign' and r['k'] == 'agg':
+            out.append(r)
+        elif kind == 'assign' and r['k'] == 'use':
+            out += _agg_defs(f, r['o'], depth - 1, seen)
+    return out
+
+
 RULES = [
     Rule('C10.B1', 'every `definitely absent` answer lies in its owner and is controlled by that owner\'s justifying test; defaults are NeedAdditionalCheck', b1, 11),
     Rule('C10.B2', 'filter.add(key) dominates every insertion into the in-memory header map', b2, 2),
     Rule('C10.B3', 'CombinedFilter add / merge / clear reach every filter component; the merge result depends on all of them', b3, 7),
+    Rule('C10.B28', 'a group node created under the root has a parent link', b28, 1),
     Rule('C10.B4', 'add_child merges into the node and every ancestor; overwrite-init only for a childless node; a new root inherits the filter', b4, 4),
     Rule('C10.B5', 'merge_filters keeps a destination filter only when checked_add_assign returned true', b5, 1),
     Rule('C10.B6', 'the bloom buffer is off-loaded only from an on-disk index, through one guarded entry point', b6, 2),
